@@ -17,7 +17,7 @@ from fractions import Fraction
 
 from . import common, pure, heapdiff
 
-PROOFS = ["proofs/SampleProofs.v", "models/Sample.v", "proofs/HeapProofs.v", "lib/Heap.v",
+PROOFS = ["proofs/SampleProofs.v", "models/Sample.v", "models/SampleSeq.v", "proofs/SampleSeqProofs.v", "proofs/HeapProofs.v", "lib/Heap.v",
           "models/SampleProb.v", "proofs/SampleProbProofs.v", "proofs/SampleProbPair.v", "proofs/SampleProbLink.v"]
 
 # The theorems of the second part of props/C20.v (distribution clause, ideal real-valued model)
@@ -296,6 +296,188 @@ def gen(rng, tier):
     return streams
 
 
+# ---------------------------------------------------------------- call sequences (c20Q)
+# "State left behind by an earlier call (including one that panicked) must not influence a
+# later call": sequences of calls made by ONE goroutine of ONE process, each under its own
+# recover(); calls with valid arguments, calls whose getWeight callback panics at index pj,
+# calls with invalid arguments.  Model: models/SampleSeq.v (smp_run_calls); theorems
+# c20_calls_history_independent / c20_calls_valid_meet_spec / c20_sample_cb_panics.
+def seq_pre(seed, k, n, pj, ws):
+    return (seed, k, n, pj, list(ws))
+
+
+def build_seq_cases(binary, seqs):
+    """seqs: list of lists of (seed, k, n, pj, ws).  pass 1 (reference keys) per call, then one
+    c20Q line per sequence."""
+    pres = []
+    for sq in seqs:
+        for (seed, k, n, pj, ws) in sq:
+            pres.append("c20pre %d %d %d %s" % (seed, k, n, " ".join(ws)))
+    built = build_cases(binary, pres)
+    out = []
+    pos = 0
+    for sq in seqs:
+        parts = []
+        for (seed, k, n, pj, ws) in sq:
+            c, _ = built[pos]
+            pos += 1
+            t = c.split()          # c20 seed k n W ws R ranks
+            parts.append(" ".join(t[1:4] + [str(pj)] + t[4:]))
+        out.append("c20Q " + " | ".join(parts))
+    return out
+
+
+def seq_calls(case):
+    """-> list of (single-call case line 'c20 seed k n W .. R ..', pj)"""
+    body = case.split(" ", 1)[1] if " " in case else ""
+    res = []
+    for part in body.split(" | "):
+        t = part.split()
+        if len(t) < 5:
+            continue
+        res.append(("c20 " + " ".join(t[0:3] + t[4:]), int(t[3])))
+    return res
+
+
+def call_valid(single, pj):
+    seed, k, n, ws, ranks = case_params(single)
+    return 1 <= k <= n and (pj < 0 or pj >= n)
+
+
+def parse_seq_model(part):
+    part = part.strip()
+    if part.startswith("PANIC"):
+        return ("panic", None, int(part.split("calls=")[1].split()[0]))
+    if part.startswith("r="):
+        d = dict(x.split("=", 1) for x in part.split())
+        s = d["r"].strip("[]")
+        return ("ok", [int(x) for x in s.split(",")] if s else [], int(d["calls"]))
+    return None
+
+
+def parse_seq_impl(part):
+    part = part.strip()
+    if part.startswith("PANIC"):
+        toks = part.split()
+        d = dict(x.split("=", 1) for x in toks[1:3] if "=" in x)
+        return ("panic", None, int(d.get("calls", "-1")))
+    pi = parse_impl(part)
+    if pi is None:
+        return None
+    return ("ok", pi[0], pi[2])
+
+
+def compare_seq(case, model, impl):
+    calls = seq_calls(case)
+    ms, is_ = model.split(" | "), impl.split(" | ")
+    if model.startswith("MODEL-EXN") or len(ms) != len(calls):
+        return "model failed: " + model[:120]
+    if len(is_) != len(calls):
+        return "implementation gave %d results for %d calls: %s" % (len(is_), len(calls), impl[:160])
+    for idx, ((single, pj), m, i) in enumerate(zip(calls, ms, is_)):
+        if i.startswith("RANK-MISMATCH") or "HARNESS" in i:
+            return "harness (call %d): %s" % (idx, i[:160])
+        pm, pi = parse_seq_model(m), parse_seq_impl(i)
+        if pm is None or pi is None:
+            return "call %d: unparsable result (model %s, impl %s)" % (idx, m[:60], i[:60])
+        if pm[0] != pi[0]:
+            return "call %d of the sequence: panic behaviour differs (model %s, implementation %s)" % (
+                idx, "panics" if pm[0] == "panic" else "returns", "panics" if pi[0] == "panic" else "returns")
+        if pm[2] != pi[2]:
+            return "call %d of the sequence: number of getWeight invocations differs (model %d, implementation %d)" % (idx, pm[2], pi[2])
+        if pm[0] == "ok":
+            full = parse_impl(i.strip())
+            if full and ambiguous(full[1]):
+                continue
+            if pm[1] != pi[1]:
+                return "call %d of the sequence: returned index slice differs (model %s, implementation %s)" % (idx, pm[1], pi[1])
+    return None
+
+
+def monitor_seq(case, impl):
+    """the property text on EVERY valid call of the sequence (valid arguments, in-domain weights,
+    callback does not panic), whatever came before it"""
+    calls = seq_calls(case)
+    is_ = impl.split(" | ")
+    if len(is_) != len(calls):
+        return None
+    for idx, ((single, pj), i) in enumerate(zip(calls, is_)):
+        if not call_valid(single, pj):
+            continue
+        mf = monitor(single, i.strip())
+        if mf is not None:
+            kinds = []
+            for (s2, p2) in calls[:idx]:
+                sd, k2, n2, _, _ = case_params(s2)
+                kinds.append("valid" if call_valid(s2, p2) else ("callback-panic@%d" % p2 if 1 <= k2 <= n2 else "invalid-args"))
+            return (mf[0], "call %d of the sequence (after: %s): %s" % (idx, ",".join(kinds) or "nothing", mf[1]))
+    return None
+
+
+def nontrivial_seq(case, model):
+    calls = seq_calls(case)
+    return len(calls) >= 2 and any(call_valid(s, p) for s, p in calls[1:])
+
+
+def gen_seq(rng, tier):
+    """sequences of (seed, k, n, pj, ws)"""
+    quick = tier == "quick"
+    streams = []
+
+    def call(k, n, pj, kind="int"):
+        return seq_pre(rng.range(0, 1 << 62), k, n, pj, gen_weights(rng, max(n, 0), kind) if n <= 4096 else [])
+
+    # 1. bounded-exhaustive: one call that panics in its callback at index pj (all k1 <= n1 <= N,
+    #    all pj < n1), followed by one valid call (all k2 <= n2 <= N)
+    N = 4 if quick else 6
+    ex = []
+    for n1 in range(1, N + 1):
+        for k1 in range(1, n1 + 1):
+            for pj in range(0, n1):
+                for n2 in range(1, N + 1):
+                    for k2 in range(1, n2 + 1):
+                        ex.append([call(k1, n1, pj), call(k2, n2, -1, rng.choice(["int", "equal-small", "skewed"]))])
+    streams.append(("seq-callback-panic-then-valid-exhaustive", ex))
+    # 2. a valid call followed by a valid call of a different shape (larger / smaller k and n)
+    vv = []
+    M = 5 if quick else 8
+    for n1 in range(1, M + 1):
+        for k1 in range(1, n1 + 1):
+            for n2 in range(1, M + 1):
+                for k2 in range(1, n2 + 1):
+                    vv.append([call(k1, n1, -1), call(k2, n2, -1, rng.choice(["int", "prob", "tiny"]))])
+    streams.append(("seq-valid-then-valid-exhaustive", vv))
+    # 3. an invalid-argument call (every small invalid (k, n)) followed by a valid call
+    iv = []
+    for k1 in range(-2, 6):
+        for n1 in range(-2, 5):
+            if not (1 <= k1 <= n1):
+                for (k2, n2) in ((1, 1), (1, 3), (2, 3), (3, 3), (2, 7)):
+                    iv.append([call(k1, n1, -1), call(k2, n2, -1)])
+    streams.append(("seq-invalid-args-then-valid", iv))
+    # 4. long random sequences mixing all kinds of calls and sizes
+    rnd = []
+    cnt = 400 if quick else 6000
+    for _ in range(cnt):
+        sq = []
+        for _ in range(rng.range(3, 12)):
+            n = rng.choice([1, 2, 3, 5, 7, 16, 33, rng.range(1, 64)])
+            k = rng.choice([1, n, max(1, n - 1), rng.range(1, n)])
+            what = rng.below(10)
+            if what < 5:
+                sq.append(call(k, n, -1, rng.choice(KINDS)))
+            elif what < 8:
+                sq.append(call(k, n, rng.choice([0, n - 1, rng.below(n), min(n - 1, k), max(0, k - 1)]), rng.choice(KINDS)))
+            elif what < 9:
+                sq.append(call(rng.choice([n + 1, 0, -1, n + rng.range(1, 50)]), n, rng.choice([-1, 0]), "int"))
+            else:
+                sq.append(call(k, n, n + rng.range(0, 3), "int"))     # panic index never asked for
+        sq.append(call(rng.range(1, 5), rng.range(5, 40), -1, rng.choice(KINDS)))
+        rnd.append(sq)
+    streams.append(("seq-random-mixed", rnd))
+    return streams
+
+
 STAT_VECTORS = [
     ("integers", ["1", "2", "3", "4"]),
     ("seven-equal-1e-3 (D9 input)", ["0.001"] * 7),
@@ -435,6 +617,11 @@ def run(chk):
             corpus = [c for c in pure.corpus_cases("C20") if c.startswith("c20pre")]
             pre_streams = [("corpus", corpus)] + gen(chk.rng, chk.tier)
             cases = run_sampling_streams(chk, binary, pre_streams)
+            # call sequences in one goroutine (earlier calls, also panicking ones, must leave nothing behind)
+            seq_streams = [(name, build_seq_cases(binary, sqs)) for name, sqs in gen_seq(chk.rng.fork(), chk.tier)]
+            corpus_seq = [c for c in pure.corpus_cases("C20") if c.startswith("c20Q")]
+            nseq = pure.run_streams(chk, binary, [("corpus-seq", corpus_seq)] + seq_streams, compare_seq, monitor_seq, nontrivial_seq)
+            chk.cov["call_sequences"] = dict(sequences=nseq, calls=sum(len(seq_calls(c)) for _, cs in seq_streams for c in cs))
             # canary on the corpus witnesses
             canary(chk, binary, cases[:len(corpus)])
             # Heap.v against the real heap implementations
@@ -481,6 +668,12 @@ def search(chk):
             mf = monitor(c, i)
             if mf:
                 chk.monitor_fail(mf[0], c, i, mf[1])
+        for _, sqs in gen_seq(rng.fork(), "quick"):
+            qc = build_seq_cases(binary, sqs)
+            for c, i in zip(qc, common.run_impl(binary, qc)):
+                mf = monitor_seq(c, i)
+                if mf:
+                    chk.monitor_fail(mf[0], c, i, mf[1])
         sc = stat_cases(rng, "quick")
         so = common.run_impl(binary, [c for c, _ in sc])
         for (c, name), o in zip(sc, so):
@@ -507,6 +700,11 @@ def replay(chk, path):
         elif tag == "c20":
             model = common.run_model([c])[0]
             mf, cm = monitor(c, impl), compare(c, model, impl)
+            print("case=%s\n  model=%s\n  impl=%s\n  monitor=%s compare=%s" % (c, model, impl, mf, cm))
+            bad += 1 if (mf or cm) else 0
+        elif tag == "c20Q":
+            model = common.run_model([c])[0]
+            mf, cm = monitor_seq(c, impl), compare_seq(c, model, impl)
             print("case=%s\n  model=%s\n  impl=%s\n  monitor=%s compare=%s" % (c, model, impl, mf, cm))
             bad += 1 if (mf or cm) else 0
         elif tag in ("heap", "heapraw", "heapinit"):
